@@ -52,8 +52,14 @@ def run(v, tier, rng):
     for g in range(nsw):
         segs = []
         m = rng.choice([16, 32])
-        for _ in range(rng.choice([2, 2, 3])):
-            segs.append((m, [GP.safe_instr(rng, m, []) for _ in range(rng.randrange(1, 5))]))
+        for si in range(rng.choice([2, 2, 3])):
+            body = [GP.safe_instr(rng, m, []) for _ in range(rng.randrange(1, 5))]
+            if rng.random() < 0.6:
+                # a branch to a label of its own group as the FIRST statement after the mode switch (relative: the
+                # group assembles to the same bytes alone and in context); kept short so that the 16-bit size estimate holds
+                lab = "sw%d_%d" % (g, si)
+                body = [("mn", rng.choice(["JMP", "JE", "JNLE", "CALL"]), [A.ident(lab)])] + body[:3] + [("label", lab), ("mn", "DB", [A.num(rng.randrange(256))])]
+            segs.append((m, body))
             m = 48 - m
         prog = []
         for (m, sts) in segs:
